@@ -491,3 +491,56 @@ func TestC17ModelCrossCheck(t *testing.T) {
 		t.Fatalf("VERIF-UNDECIDED oracle dispute: the Go draft-07 model and python jsonschema disagree on %d of %d documents, e.g. %s", res.Count, res.N, res.Disagreements[0])
 	}
 }
+
+// TestC17Large: documents of 0.5 .. 2.5 MiB (many devices or one huge string),
+// valid and invalid only near the end, through every entry point.
+func TestC17Large(t *testing.T) {
+	rec := stats.For("C17", "large")
+	env := newC17Env(t)
+	idx, n := shard()
+	count := 0
+	sizes := []int{512 << 10, (1 << 20) - 4096, (1 << 20) + 4096}
+	if tier() == "thorough" {
+		sizes = append(sizes, 5<<19, 6<<20)
+	}
+	for _, size := range sizes {
+		for _, shape := range []string{"many-devices", "long-string"} {
+			for _, tail := range []string{"valid", "invalid-last-device", "invalid-root-member-at-end"} {
+				count++
+				if count%n != idx {
+					continue
+				}
+				doc := map[string]any{"cdiVersion": "1.0.0", "kind": "vendor.com/class"}
+				var devs []any
+				if shape == "many-devices" {
+					for i := 0; len(devs)*130 < size; i++ {
+						devs = append(devs, map[string]any{"name": fmt.Sprintf("dev%07d", i), "containerEdits": map[string]any{
+							"env": []any{fmt.Sprintf("DEVICE_NUMBER_%07d=some-not-so-short-value-%07d", i, i)}, "additionalGids": []any{json.Number("7")}}})
+					}
+				} else {
+					devs = append(devs, map[string]any{"name": "dev", "containerEdits": map[string]any{"env": []any{"BIG=" + strings.Repeat("x", size)}}})
+					devs = append(devs, map[string]any{"name": "dev2", "containerEdits": map[string]any{"env": []any{"A=b"}}})
+				}
+				switch tail {
+				case "invalid-last-device":
+					devs[len(devs)-1].(map[string]any)["containerEdits"].(map[string]any)["additionalGids"] = []any{json.Number("4294967296")}
+				case "invalid-root-member-at-end":
+					doc["zz-devices-again"] = "x"  // harmless extra member ...
+					doc["kind"] = json.Number("3") // ... and a wrong type; "kind" sorts before the large "devices"? no: the verdict must not depend on position
+				}
+				doc["devices"] = devs
+				msg, info := env.check(t, doc)
+				if msg != "" {
+					t.Fatalf("C17 violated on a %s document of about %d bytes (%s): %s", shape, size, tail, msg)
+				}
+				labels := []string{"large:" + shape, "tail:" + tail, fmt.Sprintf("size>=%dKiB", size>>10)}
+				if info["model-valid"] {
+					labels = append(labels, "model-valid")
+				} else {
+					labels = append(labels, "model-invalid")
+				}
+				rec.Case(true, fmt.Sprintf("%s/%s/%d", shape, tail, size), func() any { return map[string]any{"shape": shape, "tail": tail, "bytes": size} }, labels...)
+			}
+		}
+	}
+}
